@@ -199,6 +199,15 @@ class GeoNetworkFamily(NetworkFamily):
     def mutate(self, obj, m, v):
         if m == "set_node_weight_type":
             obj.set_node_weight_type(self.TYPES[v])
+        elif m.startswith("randomly_rewire_geomodel") or m == "set_random_links_by_distance":
+            import random as pyrandom
+            pyrandom.seed(11)
+            np.random.seed(11)
+            if m == "set_random_links_by_distance":
+                obj.set_random_links_by_distance(a=0.0, b=-2.0)
+            else:
+                getattr(obj, m)(obj.grid.distance(), 2, 1.0e6)     # any link length is acceptable: a swap always exists
+            ADJ[False][3] = np.array(obj.adjacency)
         else:
             NetworkFamily.mutate(self, obj, m, v)
 
@@ -684,7 +693,8 @@ def apply_abs(a, m, v):
         m = m[:-5]
     if m.endswith("~getset"):
         m = m[:-7]
-    if m in ("adjacency", "set_edge_list", "randomly_rewire"):
+    if m in ("adjacency", "set_edge_list", "randomly_rewire", "randomly_rewire_geomodel_I",
+             "randomly_rewire_geomodel_II", "randomly_rewire_geomodel_III", "set_random_links_by_distance"):
         a["A"], a["LA"] = v, 0
     elif m == "node_weights":
         a["W"] = v
